@@ -87,6 +87,8 @@ func restValues() []string {
 	for i := 1; i <= 60; i++ {
 		out = append(out, fmt.Sprintf("%d.%03d", i, (i*37)%1000), fmt.Sprintf("%d.%06d", i%7, (i*100003)%1000000))
 	}
+	// plain decimals beyond what a float64 (or a Duration) can hold: valid, practically unbounded
+	out = append(out, "1"+strings.Repeat("0", 320), "9"+strings.Repeat("9", 400)+".5", "18446744073709551616", "9223372036.854775808")
 	return out
 }
 
